@@ -528,8 +528,7 @@ func decodeRange(data []byte, oid int) string {
 }
 
 func decodeNumericRange(data []byte, flags byte) string {
-	// Numeric ranges have variable-length bounds, more complex to parse
-	// For now, return a simplified representation
+	// Numeric ranges have variable-length bounds
 	const (
 		rangeLbInc = 0x02
 		rangeUbInc = 0x04
@@ -542,6 +541,31 @@ func decodeNumericRange(data []byte, flags byte) string {
 	lbInf := flags&rangeLbInf != 0
 	ubInf := flags&rangeUbInf != 0
 
+	// The bounds follow the 4-byte range type oid; each is a numeric varlena.  range_serialize stores a
+	// bound of up to 126 bytes with a 1-byte header and no padding, a longer one with a 4-byte header,
+	// int-aligned relative to the start of the range's own 4-byte header; zero bytes are padding
+	// (att_align_pointer).  A bound that cannot be read is shown as "?".
+	offset := 4
+	end := len(data) - 1 // the flags byte is the last one
+	bound := func() string {
+		if offset < end && data[offset] == 0 {
+			offset = align(offset+4, 4) - 4
+		}
+		if offset >= end {
+			return "?"
+		}
+		val, n := ReadVarlena(data[offset:end])
+		if val == nil {
+			return "?"
+		}
+		offset += n
+		v := DecodeNumeric(val)
+		if v == nil {
+			return "?"
+		}
+		return fmt.Sprintf("%v", v)
+	}
+
 	var result strings.Builder
 	if lbInc {
 		result.WriteByte('[')
@@ -551,12 +575,12 @@ func decodeNumericRange(data []byte, flags byte) string {
 	if lbInf {
 		result.WriteString(",")
 	} else {
-		result.WriteString("?,")
+		result.WriteString(bound() + ",")
 	}
 	if ubInf {
 		// nothing
 	} else {
-		result.WriteString("?")
+		result.WriteString(bound())
 	}
 	if ubInc {
 		result.WriteByte(']')
